@@ -338,6 +338,16 @@ def recycle_search(ctx, shim, r, n):
                 r.choice(["shape -", "plan -"])]
         cases.append((fs, hist, ["push " + _life.hx(t2), f"flags {r.choice(_life.FLAGS_BOT)}", f"level {r.below(3)}"],
                       r.choice(["shape -", "plan -"]), "corpus-mark-first", None))
+    # residue kind `random`: fonts with AlternateSubst lookups under `rand` (generated + the corpus font); earlier uses draw k
+    # alternates (1-3 shapings), the later request has letters the lookup covers: the PRNG position must not be buffer state
+    rfonts = _life.rand_fonts(r, ctx.budget(5, 40))
+    for i in range(ctx.budget(400, 12000)):
+        f, cov, unc = rfonts[i % len(rfonts)]
+        hist = _life.rand_use(r, cov, unc)
+        if r.chance(1, 5):
+            hist = _life.residue_use(r, "latin") + ["clear"] + hist
+        fin = r.choice(["shape ", "plan "]) + _life.rand_feats(r)
+        cases.append((f, hist, _life.rand_request(r, cov, unc), fin, "random-alternates", None))
     lines = []
     for f, hist, req, fin, kind, eq in cases:
         lines.append(f"lc {f} ; " + " ; ".join((hist + ["clear"] if hist or eq is None else ["new"]) + req + [fin, "dump"]))
@@ -408,7 +418,11 @@ def recycle_search(ctx, shim, r, n):
                          "recontext: joining text whose pre- and post-context are set SEVERAL times before shaping (1-2 longer texts of "
                          "dual-joining letters, then the effective one: empty, transparent-only, mark+base, one letter, arbitrary; "
                          "set_pre_context / set_post_context / add / push_str in six interleavings), on a recycled (2/3) or brand-new "
-                         "(1/3) buffer, vs a fresh buffer that only ever gets the effective context of each side")
+                         "(1/3) buffer, vs a fresh buffer that only ever gets the effective context of each side; kind "
+                         "random-alternates: generated fonts (and the corpus font) with AlternateSubst sets of 2-5 glyphs under "
+                         "`rand` (one or two lookups, also under salt, GPOS kern over the alternates), earlier uses = 1-3 shapings "
+                         "that draw k random alternates each, request = letters the lookup covers with rand at its default / set "
+                         "explicitly / ranged / off")
 
 
 def repeat_search(ctx, shim, r, ncases):
@@ -474,6 +488,11 @@ def plan_texts_search(ctx, shim, r, ncases):
     for c, (d, s) in zip(cases, props):
         if d and s and all(ch.isprintable() or True for ch in c.text):
             by.setdefault((c.font, c.index, d, s), []).append(c)
+    # fonts whose `rand` lookups draw alternates: one plan, many texts of covered letters, one recycled buffer
+    class _T:
+        def __init__(self, text): self.text = text
+    for gi, (f, cov, unc) in enumerate(_life.rand_fonts(r, ctx.budget(3, 20))):
+        by[(f, 0, 1, "Latn")] = [_T("".join(chr(c) for c in _life.rand_text(r, cov, unc, 1, 12))) for _ in range(r.range(4, 10))]
     lines, meta = [], []
     for (font, idx, d, s), cs in sorted(by.items()):
         cs = cs[:12]
@@ -508,7 +527,8 @@ def plan_texts_search(ctx, shim, r, ncases):
                 break
     ctx.note_search("plan-texts", total, nontriv,
                     rule="corpus texts grouped by (font, guessed direction, guessed script): ShapePlan built once, then every text "
-                         "through the same plan and the same recycled buffer, compared with shaping each text alone; "
+                         "through the same plan and the same recycled buffer, compared with shaping each text alone; plus generated "
+                         "fonts / the corpus font with AlternateSubst under `rand` x 4-10 texts of covered letters; "
                          "non-trivial = output has glyphs")
 
 
@@ -537,6 +557,13 @@ def threads_search(ctx, shim, r, nfonts, threads, iters):
             g.append(f"shapemt M{gi} {th} {iters} {mode} {d} {s} {lang} {r.choice([0, 3, 0x40])} {r.below(3)} "
                      f"{r.choice(FEATS[:4])} " + " ".join(texts))
         groups.append(g)
+    for f, cov, unc in _life.rand_fonts(r, max(nfonts // 3, 2)):
+        gi = len(groups)
+        texts = [rle("".join(chr(c) for c in _life.rand_text(r, cov, unc, 1, 14))) for _ in range(r.range(3, 8))]
+        g = [f"fontfile M{gi} {f} 0"]
+        for mode in ("plan", "shape"):
+            g.append(f"shapemt M{gi} {r.choice(threads)} {iters} {mode} 1 Latn - {r.choice([0, 3])} {r.below(3)} - " + " ".join(texts))
+        groups.append(g)
     outs = vlib.run_groups(shim, groups, timeout=900, nproc=4)
     shapes = nontriv = 0
     for g, o in zip(groups, outs):
@@ -552,7 +579,8 @@ def threads_search(ctx, shim, r, nfonts, threads, iters):
     ctx.note_search("threads", shapes, nontriv, threads=threads, iters=iters,
                     rule="shapemt: per (font, direction, script) up to 26 texts; reference = sequential shape on fresh buffers; then "
                          "N threads (barrier start) sharing &Face (and one &ShapePlan in plan mode), each with its own recycled "
-                         "buffer and a rotated text order; every thread result compared bit for bit; counted = thread shapings")
+                         "buffer and a rotated text order; every thread result compared bit for bit; counted = thread shapings; "
+                         "fonts: corpus + generated fonts with AlternateSubst under `rand` (texts of covered letters)")
 
 
 def run(ctx):
@@ -575,7 +603,16 @@ def run(ctx):
     ctx.correspond("clear-probe", lines=clear_probe_lines(ctx.rng("clearprobe"), ctx.budget(3000, 60000),
                                                           [str(canon[s_]) for s_ in canon_scripts(canon)]))
     F = pick_fonts(ctx.rng("rand"), 0)[0]
-    ctx.correspond("rand", lines=[f"lcrand {F} {n}" for n in (0, 1, 5, 64, 1000)])
+    rr = ctx.rng("rand2")
+    rand_lines = [f"lcrand {F} {n}" for n in (0, 1, 5, 64, 1000)]
+    # the sequence ACROSS shape() calls on one recycled buffer: fonts whose `rand` lookups draw alternates (generated + corpus),
+    # 1-4 earlier shapings of covered letters (shape / shape_with_plan), then the PRNG of the next apply context on that buffer
+    for f, cov, unc in _life.rand_fonts(rr, ctx.budget(4, 30)):
+        for _ in range(ctx.budget(12, 200)):
+            texts = [("p:" if rr.chance(1, 3) else "") + _life.hx(_life.rand_text(rr, cov, unc, 1, 12)) for _ in range(rr.range(1, 4))]
+            rand_lines.append(f"lcrand {f} {rr.choice([0, 1, 3, 16])} " + " ".join(texts))
+    ctx.correspond("rand", lines=rand_lines,
+                   classify=lambda ln, out: ["earlier-shapes:" + str(len(ln.split()) - 3), "n:" + ln.split()[2]])
     recycle_search(ctx, shim, ctx.rng("recycle"), ctx.budget(1500, 40000))
     repeat_search(ctx, shim, ctx.rng("repeat"), ctx.budget(200, 2128))
     plan_texts_search(ctx, shim, ctx.rng("plantexts"), ctx.budget(400, 2128))
